@@ -209,6 +209,7 @@ def c11_types(which: int) -> bool:
 def _sh_cfg(tier):
     if tier == "quick":
         return product_pins(p=[2], h0=[0], l0=[1, 2], s0=[2], rkind=[0], rsym=[0, 1], rs=[1], rf=[1, 2, 3]) + \
+            product_pins(p=[2], h0=[0], l0=[0], rkind=[0], rsym=[1, 2], rs=[1], rf=[1, 3]) + \
             product_pins(p=[2], h0=[0], l0=[2], s0=[2], rkind=[1, 2], rsym=[0], rs=[1, 3], rf=[2]) + \
             product_pins(p=[1], rkind=[3], rsym=[0], rs=[1, 3], rf=[0])
     return product_pins(p=[2], h0=[0, 1], l0=[0, 1, 2], rkind=[0], rsym=[0, 1, 2], rs=[0, 1], rf=[0, 1, 2, 3]) + \
@@ -239,7 +240,7 @@ ASSUME = ["languages compared on all words of length <= 3 (O-CFG / O-PDA fixpoin
 
 CONDS = [
     Cond("C11", c11_cfg, _sh_cfg,
-         {"quick": "grammars S->a.. + any second production (over {S,A},{a,b}) x partial DFA with 2 states over "
+         {"quick": "grammars S->a.. or S->eps + any second production (over {S,A},{a,b}) x partial DFA with 2 states over "
                    "{a,b} or {a,c} (start 0, any non-empty final mask); x eps-NFA / NFA with <=2 edges; single "
                    "production x regex of 1 or 3 tokens from {a,b,|,*,(,),$,c}",
           "thorough": "all 2-production grammars x DFA(2 states, 2 symbols) incl. no start state, 3 alphabets; "
